@@ -11,7 +11,32 @@ TRUSTED_BASE = [
     "is a parameter of the model, not verified",
 ]
 
+E2E_ASSUME = [
+    "e2e scenarios use fake codecs (raw/hexa/rev over BytesValue) and fake RLE compressors registered through WithCodec/"
+    "WithCompression, which the model computes itself; real proto/json/gzip are outside the exact e2e comparison",
+    "JSON encodings of Connect errors / end-of-stream written by the backend enter the model as per-scenario tables computed "
+    "by the harness with vanguard's own decoders",
+    "the client connection is an httptest.ResponseRecorder (idealised net/http writer: first WriteHeader wins, trailers by "
+    "declaration or TrailerPrefix); REST bindings are not part of the e2e scenarios",
+]
+
 CHECKS = {
+    "C03": {
+        "module": "Vanguard.Props.C03", "namespace": "Vanguard.C03", "streams": ["e2e"],
+        "partial": "that the model's whole response satisfies the protocol validator for every scenario is not a theorem yet",
+        "assumptions": E2E_ASSUME,
+    },
+    "C11": {
+        "module": "Vanguard.Props.C11", "namespace": "Vanguard.C11", "streams": ["e2e", "codes"],
+        "partial": "panic-freedom is proved for every outcome-reporting path; for the writer/reader loops it is checked by correspondence; "
+                   "framing by a real HTTP stack is represented by httptest.ResponseRecorder only",
+        "assumptions": E2E_ASSUME,
+    },
+    "C18": {
+        "module": "Vanguard.Props.C18", "namespace": "Vanguard.C18", "streams": ["e2e"],
+        "partial": "no I/O after return is observed by the harness (vanguard starts no goroutine), not modelled",
+        "assumptions": E2E_ASSUME,
+    },
     "C06": {
         "module": "Vanguard.Props.C06",
         "namespace": "Vanguard.C06",
